@@ -175,7 +175,7 @@ _TARGETS = ['http://b.example:8080/p?q=1', 'http://a.example/next', 'https://a.e
 _CODES = [302, 307, 308, 301, 303]
 
 
-def _redirect_chain(start_i, cred, cookie, proxy, nhops, c1, t1, c2, t2, c3, t3):
+def _redirect_chain(start_i, cred, cookie, proxy, nhops, c1, t1, c2, t2, c3, t3, final401=False):
     clear_url_memo()
     start = pick(_START, start_i)
     nhops = pick([0, 1, 2, 3], nhops)
@@ -184,6 +184,10 @@ def _redirect_chain(start_i, cred, cookie, proxy, nhops, c1, t1, c2, t2, c3, t3)
     for k, (code, target) in enumerate(hops):
         extra = (('Set-Cookie', 'sid2=SECRET-A2; Path=/'),) if (cookie and k == 0) else ()
         script.append((code, target, extra))
+    if final401:
+        # the last host of the chain challenges: credentials given for the start host must not be offered to another one
+        script.append((401, None, (('WWW-Authenticate', 'Basic realm="r"'),)))
+        script.append((200, None, ()))
     with nosym():
         client = _WireClient(script, proxy)
         req = Request(start)
@@ -278,19 +282,20 @@ HARNESSES = [
       samples=[(1, 'x'), (0, '-')], funcs=['wpull/protocol/http/request.py:Request.prepare_for_send'],
       doc='same wire-shape assertion with a free symbolic string inside host, path, query or user-info'),
     H('redirect_chain', '_redirect_chain',
-      'start_i: int, cred: bool, cookie: bool, proxy: bool, nhops: int, c1: int, t1: int, c2: int, t2: int, c3: int, t3: int',
+      'start_i: int, cred: bool, cookie: bool, proxy: bool, nhops: int, c1: int, t1: int, c2: int, t2: int, c3: int, t3: int, final401: bool',
       pre={'quick': ['0 <= start_i <= 2 and 0 <= nhops <= 2 and 0 <= c1 <= 2 and 0 <= c2 <= 2 and c3 == 0 and 0 <= t1 <= 3 and 0 <= t2 <= 3 and t3 == 0'],
            'thorough': ['0 <= start_i <= 2 and 0 <= nhops <= 3 and 0 <= c1 <= 4 and 0 <= c2 <= 4 and 0 <= c3 <= 4 and 0 <= t1 <= 5 and 0 <= t2 <= 5 and 0 <= t3 <= 5']},
-      parts={'quick': [{'tag': 's%d_%s' % (s, tag), 'fix': {'start_i': str(s), 'cred': str(cr), 'cookie': str(ck), 'proxy': str(px)}}
-                       for s in range(3) for tag, cr, ck, px in (('plain', False, False, False), ('cred', True, False, False), ('cookie', False, True, False), ('proxy', False, False, True))],
+      parts={'quick': [{'tag': 's%d_%s' % (s, tag), 'fix': {'start_i': str(s), 'cred': str(cr), 'cookie': str(ck), 'proxy': str(px), 'final401': str(f4)}}
+                       for s in range(3) for tag, cr, ck, px, f4 in (('plain', False, False, False, False), ('cred', True, False, False, False), ('cred401', True, False, False, True),
+                                                                     ('cookie', False, True, False, False), ('proxy', False, False, True, False))],
              'thorough': [{'tag': 's%d_c%d_k%d_p%d' % (s, cr, ck, px), 'fix': {'start_i': str(s), 'cred': str(bool(cr)), 'cookie': str(bool(ck)), 'proxy': str(bool(px))}}
                           for s in range(3) for cr in (0, 1) for ck in (0, 1) for px in (0, 1)]},
-      timeout={'quick': 250, 'thorough': 2400}, samples=[(0, False, False, False, 1, 0, 1, 0, 0, 0, 0), (1, True, True, False, 2, 1, 1, 2, 2, 0, 0)],
+      timeout={'quick': 250, 'thorough': 2400}, samples=[(0, False, False, False, 1, 0, 1, 0, 0, 0, 0, False), (1, True, True, False, 2, 1, 1, 2, 2, 0, 0, False), (0, True, False, False, 1, 1, 0, 0, 0, 0, 0, True)],
       need=['followed'],
       funcs=['wpull/protocol/http/web.py:WebSession.start', 'wpull/protocol/http/web.py:WebSession._process_redirect',
              'wpull/protocol/http/web.py:WebSession._add_basic_auth_header', 'wpull/protocol/http/web.py:WebSession._add_cookies',
              'wpull/cookiewrapper.py:CookieJarWrapper.add_cookie_header', 'wpull/protocol/http/redirect.py:RedirectTracker.next_location'],
       doc='for every hop of a redirect chain (<=2 hops quick / 3 thorough, codes 301/302/303/307/308, same host / other host / other port / '
-          'https / relative targets, credentials in the URL or on the request, a cookie set by the first host, origin or proxy form): the '
+          'https / relative targets, credentials in the URL or on the request - also when the last host answers 401 -, a cookie set by the first host, origin or proxy form): the '
           'wire bytes have the shape above for THAT hop\'s URL, Authorization only goes to the start host, the cookie only to its host'),
 ]
